@@ -11,7 +11,7 @@ use std::process::{Command, Stdio};
 use std::time::Instant;
 
 fn harness_dir() -> PathBuf {
-    PathBuf::from(format!("{}/harness", VERIF_DIR))
+    PathBuf::from(format!("{}/harness", verif_dir()))
 }
 
 fn fuzz_bin(target: &str) -> PathBuf {
@@ -151,7 +151,7 @@ pub fn campaign(ctx: &mut Ctx, target: &str, runs_per_job: u64, jobs: usize, max
     let fail = failure.map(|(bytes, f)| {
         // raw bytes are the replay unit
         let h = hash_str(&format!("{:?}", bytes));
-        let dir = format!("{}/replays", VERIF_DIR);
+        let dir = format!("{}/replays", verif_dir());
         let _ = std::fs::create_dir_all(&dir);
         let path = format!("{}/{}-{}-{:012x}.bin", dir, ctx.prop, target, h & 0xffff_ffff_ffff);
         let _ = std::fs::write(&path, &bytes);
